@@ -464,6 +464,43 @@ def run(ctx):
                    'no arguments' % (arg, tests), construct='CallableSpec.__init__: ' + short(c))
     if not found:
         ctx.unknown('R16d', sp, ci, 'LatexArgumentsParser construction not found')
+    # a hook that receives the object may re-assign its attributes: after the hook, the attribute is
+    # read, not the local it was initialised from
+    hook_attrs = {}
+    for q_, g_ in sp.functions.items():
+        if '.' in q_ or not g_.args.args:
+            continue
+        p0 = g_.args.args[0].arg
+        for n_ in ast.walk(g_):
+            if isinstance(n_, ast.Attribute) and isinstance(n_.ctx, ast.Store) and isinstance(n_.value, ast.Name) \
+                    and n_.value.id == p0 and p0 != 'self':
+                hook_attrs.setdefault(q_, set()).add(n_.attr)
+    init_from = {}
+    for st_ in iter_own(ci):
+        if isinstance(st_, ast.Assign) and len(st_.targets) == 1 and is_self_attr(st_.targets[0]) and \
+                isinstance(st_.value, ast.Name):
+            init_from.setdefault(st_.value.id, []).append((st_.targets[0].attr, st_.lineno))
+    for hc in [c_ for c_ in iter_own(ci) if isinstance(c_, ast.Call) and any(
+            isinstance(a_, ast.Name) and a_.id == 'self' for a_ in c_.args)]:
+        names = [hc.func.id] if isinstance(hc.func, ast.Name) else []
+        names += [a_.value for a_ in hc.args if isinstance(a_, ast.Constant) and isinstance(a_.value, str)]
+        attrs = set()
+        for q_, as_ in hook_attrs.items():
+            if any(q_ == nm_ or q_.endswith(nm_) for nm_ in names):
+                attrs |= as_
+        if not attrs:
+            continue
+        for n_ in iter_own(ci):
+            if isinstance(n_, ast.Name) and isinstance(n_.ctx, ast.Load) and n_.lineno > hc.lineno and n_.id in init_from:
+                stale = [a_ for a_, ln_ in init_from[n_.id] if a_ in attrs and ln_ < hc.lineno]
+                par_ = getattr(n_, '_parent', None)
+                if stale and not (isinstance(par_, ast.Call) and par_ is hc):
+                    ctx.refuted('R16d', sp, enclosing_stmt(n_) or n_, 'CallableSpec.__init__ reads the local %s after the '
+                                'legacy hook (%s) which may have re-assigned self.%s: a specification given as '
+                                'args_parser=<string> sets the attribute only, so the spec is built from the stale value '
+                                'and parses no arguments' % (n_.id, short(hc, 50), stale[0]),
+                                construct='CallableSpec.__init__: stale %s after the hook' % n_.id)
+                    break
 
     # ---- R16e
     written, read = {}, {}
@@ -625,6 +662,10 @@ def run(ctx):
     ctx.rule('R16s', 'MacroStandardArgsParser.parse_args: every sub-parse given a token reader reads from the running '
                      'position (fresh reader at pos=p, or a kept reader re-positioned whenever p changes)', 1)
     _reader_at_running_position(ctx, repo)
+
+    # ---- R16t
+    ctx.rule('R16t', 'get_latex_expression() swallows only the unexpected-closing-brace error of the expression parser', 1)
+    _swallowed_error_is_closing_brace(ctx, repo, w)
 
     return 'other', (
         'Decides the wiring of the backward-compatible entry points onto the new parser objects: '
@@ -1017,3 +1058,92 @@ def _reader_at_running_position(ctx, repo):
                'argument-string spelling' % (' & '.join(bad[0].cond_src())[-140:] if bad else '', bad[1] if bad else
                                              'no sub-parse with a token reader found'),
                construct='parse_args: reader position')
+
+
+
+def _swallowed_error_is_closing_brace(ctx, repo, w):
+    """R16t: the one parse error that get_latex_expression() may swallow (pylatexenc 2 left an
+    unexpected closing brace for the caller) is recognised by something that only the
+    closing-brace raise site of the expression parser produces"""
+    f = w.functions.get('_pyltxenc2_LatexWalker_get_latex_expression')
+    em = repo.mod('pylatexenc.latexnodes.parsers._expression')
+    if f is None:
+        raise AnalysisError('anchor vanished: get_latex_expression')
+    sw = [st for t in iter_own(f) if isinstance(t, ast.Try) for h in t.handlers for st in ast.walk(h)
+          if isinstance(st, ast.Assign) and isinstance(st.value, ast.Tuple) and all(
+              isinstance(e, ast.Constant) and e.value is None for e in st.value.elts)]
+    if not sw:
+        ctx.unknown('R16t', w, f, 'swallowing branch not found', construct='get_latex_expression: swallowed error')
+        return
+    # local aliases of the exception's error_type_info
+    hname = [h.name for t in iter_own(f) if isinstance(t, ast.Try) for h in t.handlers if h.name]
+    alias = set()
+    for st in ast.walk(f):
+        if isinstance(st, ast.Assign) and len(st.targets) == 1 and isinstance(st.targets[0], ast.Name) and \
+                isinstance(st.value, ast.Attribute) and st.value.attr == 'error_type_info':
+            alias.add(st.targets[0].id)
+
+    def is_eti(e):
+        return (isinstance(e, ast.Attribute) and e.attr == 'error_type_info') or (isinstance(e, ast.Name) and e.id in alias)
+    markers, cons_eq, cons_has = set(), {}, set()
+    facts_sw = []
+    for t, pol in atomic_facts(sw[0]):
+        # a boolean local that names the condition: its definition's conjuncts
+        if pol and isinstance(t, ast.Name):
+            defs_ = [st_.value for st_ in iter_own(f) if isinstance(st_, ast.Assign) and len(st_.targets) == 1
+                     and isinstance(st_.targets[0], ast.Name) and st_.targets[0].id == t.id]
+            if len(defs_) == 1:
+                facts_sw.extend(split_conj(defs_[0], True))
+                continue
+        facts_sw.append((t, pol))
+    for t, pol in facts_sw:
+        if not pol:
+            continue
+        for x in ast.walk(t):
+            if isinstance(x, ast.Attribute) and x.attr.startswith('_error_was'):
+                markers.add(x.attr)
+            if isinstance(x, ast.Call) and isinstance(x.func, ast.Name) and x.func.id in ('getattr', 'hasattr') and \
+                    len(x.args) >= 2 and isinstance(x.args[1], ast.Constant) and str(x.args[1].value).startswith('_error_was'):
+                markers.add(x.args[1].value)
+        if isinstance(t, ast.Compare) and len(t.ops) == 1:
+            l, r = t.left, t.comparators[0]
+            if isinstance(t.ops[0], ast.Eq) and isinstance(r, ast.Constant):
+                if isinstance(l, ast.Call) and call_name(l) == 'get' and call_recv(l) is not None and is_eti(call_recv(l)) \
+                        and l.args and isinstance(l.args[0], ast.Constant):
+                    cons_eq[l.args[0].value] = r.value
+                if isinstance(l, ast.Subscript) and is_eti(l.value) and isinstance(l.slice, ast.Constant):
+                    cons_eq[l.slice.value] = r.value
+            if isinstance(t.ops[0], ast.In) and isinstance(l, ast.Constant) and is_eti(r):
+                cons_has.add(l.value)
+    # raise sites of the expression parser
+    sites = []
+    for q, g in em.functions.items():
+        for c in iter_own(g):
+            if isinstance(c, ast.Call) and kwarg(c, 'error_type_info') is not None and isinstance(kwarg(c, 'error_type_info'), ast.Dict):
+                d = kwarg(c, 'error_type_info')
+                info = dict((k.value, (v.value if isinstance(v, ast.Constant) else Ellipsis)) for k, v in zip(d.keys, d.values)
+                            if isinstance(k, ast.Constant))
+                brace = any(pol and unparse(t) in ("tok.tok == 'brace_close'",) for t, pol in atomic_facts(c))
+                sites.append((c, info, brace))
+    cons = 'get_latex_expression: swallowed error'
+    if markers:
+        stores = [(mod_, n_) for mod_ in repo.modules.values() for n_ in ast.walk(mod_.tree)
+                  if isinstance(n_, ast.Attribute) and isinstance(n_.ctx, ast.Store) and n_.attr in markers]
+        okm = len(stores) == 1 and any(pol and unparse(t) == "tok.tok == 'brace_close'" for t, pol in atomic_facts(stores[0][1]))
+        ctx.decide('R16t', okm, w, sw[0], 'recognised by the marker %s, set at the single closing-brace raise site' % sorted(markers),
+                   'the marker %s is set at %d site(s), not only where a closing brace is found' % (sorted(markers), len(stores)),
+                   construct=cons)
+        return
+    if cons_eq or cons_has:
+        match = [s_ for s_ in sites if all(s_[1].get(k) == v for k, v in cons_eq.items()) and all(k in s_[1] for k in cons_has)]
+        other = [s_ for s_ in match if not s_[2]]
+        ctx.decide('R16t', bool(match) and not other, w, sw[0],
+                   'the tested error_type_info fields single out the closing-brace error',
+                   'get_latex_expression() swallows every parse error whose error_type_info has %s%s: %d raise sites of the '
+                   'expression parser produce such an error, also one that is not the closing-brace case (line %s: %s) -- a '
+                   'math delimiter in place of an expression then yields the empty result where the pylatexenc-3 parser '
+                   'fails, and legacy argument parsers go on past it'
+                   % (cons_eq, (' and the key(s) %s' % sorted(cons_has)) if cons_has else '', len(match),
+                      other[0][0].lineno if other else '?', other[0][1].get('unexpected') if other else '?'), construct=cons)
+        return
+    ctx.unknown('R16t', w, sw[0], 'how the swallowed error is recognised is not understood', construct=cons)
